@@ -627,6 +627,63 @@ func enumWrite(p *pool, names []string, maxFaults int, grid2 []int) {
 	}
 }
 
+// enumWriteGrid submits every write plan with one fault (and, for faults that leave the
+// connection usable, a second one) whose accepted-byte counts are taken from a grid: for
+// streams too long to try every count. The Write calls are the ones the transport makes, so
+// an envelope handed over in several pieces gets its faults at the start of every piece.
+func enumWriteGrid(p *pool, names []string, grid []int) {
+	stream := items(names)
+	w0 := newWorker()
+	f, lens := w0.evalWrite(names, stream, nil)
+	agg.add(f)
+	w0.eval("W", names, nil, nil, false)
+	nWrite1.Add(1)
+	root := append([]int(nil), lens...)
+	for j := range root {
+		j := j
+		for _, kind := range faultKinds {
+			kind := kind
+			ks := kset(root[j], grid)
+			for _, d := range []int{root[j] - 2, root[j] - 1} {
+				if d > 0 && !inGrid(ks, d) {
+					ks = append(ks, d)
+				}
+			}
+			for _, k := range ks {
+				k := k
+				p.submit(func(w *worker) {
+					p1 := make(pconn.Plan, 0, j+8)
+					for i := 0; i < j; i++ {
+						p1 = append(p1, pconn.Act{K: 'a'})
+					}
+					p1 = append(p1, pconn.Act{K: kind, N: k})
+					f, lens := w.evalWrite(names, stream, p1)
+					agg.add(f)
+					w.eval("W", names, p1, nil, true)
+					nWrite1.Add(1)
+					l1 := append([]int(nil), lens...)
+					for j2 := j + 1; j2 < len(l1); j2++ {
+						p2 := append(pconn.Plan(nil), p1...)
+						for i := j + 1; i < j2; i++ {
+							p2 = append(p2, pconn.Act{K: 'a'})
+						}
+						p2 = append(p2, pconn.Act{})
+						for _, kind2 := range faultKinds {
+							for _, k2 := range kset(l1[j2], []int{0, 1, 4096, 65536}) {
+								p2[len(p2)-1] = pconn.Act{K: kind2, N: k2}
+								f, _ := w.evalWrite(names, stream, p2)
+								agg.add(f)
+								w.eval("W", names, p2, nil, true)
+								nWrite2.Add(1)
+							}
+						}
+					}
+				})
+			}
+		}
+	}
+}
+
 func inGrid(g []int, k int) bool {
 	i := sort.SearchInts(g, k)
 	return i < len(g) && g[i] == k
@@ -1013,6 +1070,9 @@ func main() {
 		rep.Set("huge_stream", map[string]interface{}{"stream": "req,big100k,not,msg", "bytes": hn, "grid_points": len(hgrid)})
 		enumReadGrid(p, hugeS, 2, hgrid)
 		enumReadChunks(p, hugeS, []int{4096, 65536, 1 << 20})
+		// write faults on the same stream: accepted-byte counts around the buffer sizes a
+		// transport might hand the connection (4 KiB, 32 KiB, 64 KiB) and at both ends of each Write
+		enumWriteGrid(p, hugeS, []int{0, 1, 2, 511, 512, 513, 4095, 4096, 4097, 32767, 32768, 32769, 65535, 65536, 65537})
 	}
 	if rep.Thorough() {
 		n4 := 0
